@@ -55,11 +55,14 @@ def oracle_with_model(lines, trace, mtrace):
     nothing in flight = the library has no retransmission timer (known finding D10)"""
     fails = oracle(lines, trace)
     out = []
-    z = [l for l in mtrace if l.startswith("Z tcp")]
-    parked = any("outgoing=0" not in l and " inflight=0 " in l for l in z)
+    import re
+    diag = [l.split() for l in mtrace if re.match(r"^L t=-?\d+ 8 ", l)]
+    # model diagnostic at close: [sock, parked segments, bytes in flight]
+    parked = any(int(d[4]) > 0 and int(d[5]) == 0 for d in diag)
+    plain = [l for l in mtrace if not l.startswith("Z ") and not re.match(r"^L t=-?\d+ 8 ", l)]
     for sig, msg in fails:
-        if sig == "c06/stall" and parked and mtrace and [l for l in mtrace if not l.startswith("Z ")] == trace:
-            out.append(("c06/stall/parked-nothing-in-flight", msg + " [model: a dropped segment waits for an ACK that cannot come]"))
+        if sig == "c06/stall" and parked and plain == trace:
+            out.append(("c06/stall/parked-nothing-in-flight", msg + " [model: a dropped segment waited for an ACK that could not come]"))
         else:
             out.append((sig, msg))
     return out
